@@ -701,6 +701,11 @@ func (ctx Ctx) integerConversion(s ast.Node, x ast.Expr, width int) coq.Expr {
 }
 
 func (ctx Ctx) copyExpr(n ast.Node, dst ast.Expr, src ast.Expr) coq.Expr {
+	if _, ok := ctx.typeOf(src).Underlying().(*types.Slice); !ok {
+		// copy(bytes, "string") is legal Go but SliceCopy needs a slice
+		ctx.unsupported(n, "copy from non-slice type %v", ctx.typeOf(src))
+		return nil
+	}
 	e := sliceElem(ctx.typeOf(dst))
 	return coq.NewCallExpr(coq.GallinaIdent("SliceCopy"),
 		ctx.coqTypeOfType(n, e),
